@@ -178,7 +178,48 @@ def cut_inside_construct(text: str, chunks: List[str]) -> bool:
     return False
 
 
+_HELPER_CALLS = [0]
+
+
+def helper_streams(run, text: str, opts, ref: list, data: Any, label: str, engine: str) -> None:
+    """The same tokens through the other public ways of reading them: the iterator protocol and skipping_newlines().
+    Both are the stream tok() gives, cut at EOF (newlines left out by the second); an error is the same error."""
+    from srctools.tokenizer import Tokenizer, Token, TokenSyntaxError
+    toks = [r for r in ref if r and r[0] not in ('ERR', 'BAD-EXC', 'NO-EOF')]
+    err = next((r for r in ref if r and r[0] == 'ERR'), None)
+    upto = next((i for i, r in enumerate(toks) if r[0] is Token.EOF), len(toks))
+    want_iter = [(t, v) for t, v, _ in toks[:upto]]
+    want_skip = [(t, v) for t, v in want_iter if t is not Token.NEWLINE]
+    if any(r and r[0] in ('BAD-EXC', 'NO-EOF') for r in ref):
+        return
+    for name, want, reader in (('iteration', want_iter, lambda tk: list(tk)), ('skipping_newlines()', want_skip, lambda tk: list(tk.skipping_newlines()))):
+        got: list = []
+        got_err = None
+        tk = Tokenizer(data if not hasattr(data, 'seek') else io.StringIO(text, newline=''), **opts)
+        try:
+            it = iter(tk) if name == 'iteration' else tk.skipping_newlines()
+            for pair in it:
+                got.append(tuple(pair))
+                if len(got) > len(text) + 8:
+                    break
+        except TokenSyntaxError as exc:
+            got_err = ('ERR', type(exc).__name__, str(exc.mess), exc.line_num)
+        except Exception as exc:
+            got_err = ('BAD-EXC', type(exc).__name__, str(exc))
+        run.count('helper_streams_compared')
+        if got != want or got_err != err:
+            run.violation(f'{name} over delivery {label} does not give the tokens that calling the tokenizer gives',
+                          witness={'want': _show(want)[:20], 'got': _show(got)[:20], 'want_error': err, 'got_error': got_err},
+                          case={'text': text, 'opts': _optbits(opts), 'chunks': data if isinstance(data, list) else label}, engine=engine,
+                          key='helper-stream-differs')
+            return
+
+
 def compare_deliveries(run, text: str, opts, ref: list, deliveries: List[Tuple[str, Any]], engine: str) -> None:
+    _HELPER_CALLS[0] += 1
+    if _HELPER_CALLS[0] % 16 == 0 and deliveries:
+        lab, dat = deliveries[_HELPER_CALLS[0] // 16 % len(deliveries)]
+        helper_streams(run, text, opts, ref, text if hasattr(dat, 'seek') else dat, lab, engine)
     for label, data in deliveries:
         tr, _ = trace(data, opts, len(text))
         run.count('deliveries_compared')
@@ -524,7 +565,7 @@ def main(run, shard=(0, 1)) -> None:
     long_runs(run, shard, thorough)
     run.sample({'text': '"a\r', 'chunks': ['"a', '\r'], 'opts': '0010000'}, 'exhaustive')
     probe.check_reached(run)
-    run.require('lookahead_traces', 'long_run_texts', 'real_file_deliveries', 'exhaustive_text_x_options', 'focused_text_x_options', 'deliveries_compared', 'kv_parse_calls', 'kv_exhaustive_texts_x_options')
+    run.require('lookahead_traces', 'helper_streams_compared', 'long_run_texts', 'real_file_deliveries', 'exhaustive_text_x_options', 'focused_text_x_options', 'deliveries_compared', 'kv_parse_calls', 'kv_exhaustive_texts_x_options')
 
 
 def replay(run, data) -> None:
